@@ -272,6 +272,9 @@ package task
 //@   site context.WithCancel#1 requires arg0 == bgCtx                                                  [C14]
 //@   site context.WithCancel#1 ghost ownCtx := result.0
 //@   site (*Executor).runCommand#1 requires arg1 == ownCtx && arg2 == t && arg3 == call && arg4 == i   [C14]
+// the text that is rendered (now, with EXIT_CODE) and then run is that of entry i of the COMPILED task - the list
+// the index refers to (loops have been unrolled and null entries dropped there, not in the definition)
+//@   site templater.ReplaceWithExtra#1 requires arg0 == t.Cmds[i].Cmd                                   [C14]
 
 //@ func (*Executor).areTaskPreconditionsMet
 //@   modifies heap, fs_exists, fs_ver
@@ -373,7 +376,7 @@ package task
 
 //@ func (*Executor).statusOnError
 //@   site fingerprint.NewSourcesChecker#1 requires arg0 == (t.Method != "" ? t.Method : e.Taskfile.Method)
-//@        && arg1 == e.TempDir.Fingerprint && arg2 == e.Dry                                           [C04,C05]
+//@        && arg1 == e.TempDir.Fingerprint && arg2 == e.Dry                                           [C04,C05,C12]
 
 //@ func (*Executor).Status
 
@@ -413,7 +416,11 @@ package task
 //@   site (*Tasks).All#1 requires arg1 == nil                             -- wildcards in Taskfile order                [C15]
 //@   ensures call != nil && exactHit ==> len(result) == 1 && result[0].Task == exactTask                               [C15]
 
+// The spelling model is built once, by Setup, before any task runs; the (concurrent) lookups only read it.
+//@ func (*Executor).Setup
+//@   site (*Executor).setupFuzzyModel#1 requires arg0 == e                                                             [C18,C15]
 //@ func (*Executor).GetTask
+//@   nosite (*Executor).setupFuzzyModel                                                                                [C18]
 //@   init consulted := false
 //@   init matchedAny := false
 //@   init firstMatch := nil
